@@ -135,6 +135,7 @@ def run(ctx):
                 conds.append(xh.Cond(f"annotate --recursive {what} flags=(submodules={f1},meson={f2})", "C03.py", "_rec", {"flags": [f1, f2, False], "requests": [req], "filenames": [0, 1, 9] if tier == "quick" else [0, 1, 9, 11, 16], "carve": carve}, timeout=tmo, twin="_rec_reach"))
     conds.append(xh.Cond("VCSStrategyGit: the NUL-separated answers of git (ignored paths, submodule paths) are read back exactly, for names with blanks, non-ASCII, line feed, leading dash, directories", "C03.py", "_git", {}, timeout=tmo, twin="_git_reach"))
     conds.append(xh.Cond("Project.from_directory: the nested REUSE.toml files that take part are those of the directories that are walked (include options, VCS answers)", "C03.py", "_tomls", {}, timeout=tmo, twin="_tomls_reach"))
+    conds.append(xh.Cond("lint-file (Project.subset_files) restricted to F examines what lint (Project.all_files) examines, intersected with F, under every include option and VCS answer", "C03.py", "_subsetflags", {}, timeout=tmo, twin="_subsetflags_reach"))
     conds.append(xh.Cond("lint-file command: the files named are the ones examined, from any working directory", "C03.py", "_lintfile", {}, timeout=tmo, twin="_lintfile_reach"))
     conds.append(xh.Cond("lint-file: a named file is examined however its path and the root are spelled (relative, '..', absolute)", "C03.py", "_subset", {}, timeout=tmo, twin="_subset_reach"))
     ctx.functions_encoded = [
@@ -166,6 +167,8 @@ def run(ctx):
         if c.func == "_ign":
             key = "license-text-workaround" if ex["name"].startswith(("CAL-1.0", "SHL-2.1")) else f"decision:{ex['name']}:{ex['kind']}:{ex['subset']}"
             return key, f"is_path_ignored says {ex['got']} but the statement says {ex['expected']} for {ex}", {"harness": "C03.py::_ign", "explain": ex}
+        if c.func == "_subsetflags":
+            return f"lint-vs-lint-file:{ex['dir']}:{ex['include_submodules']}:{ex['include_meson_subprojects']}", f"lint examines {ex['lint_examines']}, lint-file with every file named {ex['lint_file_all_named']}, with only h.py named {ex['lint_file_only_h']} ({ex})", {"harness": "C03.py::_subsetflags", "explain": ex}
         if c.func == "_lintfile":
             return f"lint-file-spelling:{ex['cwd']}:{ex['root']}:{ex['named']}", f"lint-file {ex['named']!r} from {ex['cwd']} with root {ex['root']!r}: {ex['outcome']}, examined {ex['examined']}, expected {ex['expected']}", {"harness": "C03.py::_lintfile", "explain": ex}
         if c.func == "_subset":
